@@ -1164,7 +1164,7 @@ class NestedPipeFunc(PipeFunc):
         parameters = set(self._all_inputs) - set(self._all_outputs)
         return {
             k: inspect.Parameter(
-                k,
+                k.replace(".", "__"),  # a scoped name ("scope.x") is no valid identifier
                 inspect.Parameter.KEYWORD_ONLY,
                 # TODO: Do we need defaults here?
                 # default=...,  # noqa: ERA001
